@@ -113,7 +113,6 @@ proof fn f128_constants()
 proof fn fconsts_canary_must_fail()
     ensures pow_sq(7, 2nat, P64) == 50
 {
-    assert(pow_sq(7, 2nat, P64) == 50) by (compute);
 }
 
 } // verus!
